@@ -122,20 +122,41 @@ func (fr *Frame) callFunc(f *ssa.Function, binds []Val, args []Val, resT types.T
 	fr.snapshotPreCall()
 	var r Val
 	c := vc.e.contracts[name]
+	// a function literal that is not inlined may write the cells it binds: they are not private for this call
+	var suspended map[string]*Loc
+	suspend := func() {
+		for _, b := range binds {
+			if l, ok := vc.privCells[b.T]; ok {
+				if suspended == nil {
+					suspended = map[string]*Loc{}
+				}
+				suspended[b.T] = l
+				delete(vc.privCells, b.T)
+			}
+		}
+	}
+	defer func() {
+		for k, l := range suspended {
+			vc.privCells[k] = l
+		}
+	}()
 	switch {
 	case nativeExternal(name):
 		r = fr.native(name, f, args, resT, pos)
 	case c != nil && !c.Inline && (len(c.Requires) > 0 || len(c.Ensures) > 0 || len(c.Assumes) > 0 || c.ModGiven || c.External || c.Trusted != ""):
+		suspend()
 		r = fr.applyContract(c, f, f.Signature, args, resT, name, short, ord, pos)
 	case f.Blocks != nil && isInRepo(f) && fr.canInline(f):
 		r = fr.inline(f, binds, args, resT, short, ord)
 	case f.Blocks != nil && isInRepo(f):
 		// too deep / recursive: havoc what it may modify
+		suspend()
 		ms := vc.e.fnMods(f, map[*ssa.Function]bool{})
 		vc.warn("call to %s not inlined (depth/recursion): havoc of its modset", name)
 		fr.havocMods(ms)
 		r = vc.freshVal("call_"+short, resT, fr.heap)
 	default:
+		suspend()
 		ms := &ModSet{Maps: map[string]bool{}}
 		// externals: frame assumption (DESIGN 2.7): only memory reachable from arguments is modified
 		fake := &ssa.CallCommon{Value: f}
